@@ -10,6 +10,17 @@ COMMON_NOTE = ("Trusted base: pyvc engine (AST transform T1-T3 of the real sourc
                "lift to C), A3 (integer powers), A4 (path forking via z3), A5 (numpy shim contracts, listed per run in evidence.trusted_base). ")
 
 CLAIMED = {
+    "C18": dict(
+        category="proof",
+        text=("Proof part: msbar_masses.ker_expanded solves the mass RGE to the working order for generic beta and gamma_m coefficients (all nf) and orders 1-4: leading power (a1/a0)^(gamma0/beta0), "
+              "unit value at equal couplings, and the Taylor coefficients a1^j, j < n, of d ln ker/da1 * a1 beta(a1) - gamma_m(a1) vanish identically; ker_dispatcher hands the couplings at "
+              "xif2 * scale in the requested patch to the kernel of the coupling method. BOUNDED part (deal run-time contracts, never counted as proved): compute() returns sorted masses that are "
+              "fixed points m(m) = m in the patch adjoining the threshold on the side of the coupling reference over 48 seeded draws (reference nf 3-6, orders 1-4, exact / expanded, ratios, xif) and "
+              "refuses 12 inconsistent inputs with ValueError. One defect repaired by a fix commit (NumPy >= 2: TypeError, no mass could be solved)."),
+        note=COMMON_NOTE + "Not covered: decoupling constants of the running mass and their RG logarithms; convergence of fsolve / quad. The bounded part is listed under evidence.coverage.bounded_parts.",
+        technique="contract-based deductive verification (symbolic execution + exact normal form) for the kernel; bounded stand-in (deal run-time contracts) for the fixed-point clause",
+        design_ref="DESIGN.md section 2, C18",
+    ),
     "C40": dict(
         category="exploration",
         text=("BOUNDED stand-in, never counted as proved: YAML and the dataclass / typing reflection of eko.io.dictlike are outside the symbolic engine. `deal` run-time contracts on the real "
